@@ -277,7 +277,7 @@ def histories(seed, tier, extra_packets=()):
     for b in bases[:3]:
         out.append(scen(b, [op_insert("AN", big), op_insert("NS", big), op_insert("AR", big), op_insert("AN", big), op_insert("AR", 0), {"op": "read_question"}]))
     # long random histories
-    nrand = 150 if tier == "quick" else 4000
+    nrand = 150 if tier == "quick" else 2000
     for i in range(nrand):
         b = rnd.choice(bases)
         out.append(scen(b, random_history(rnd, rnd.randint(3, 14))))
